@@ -37,6 +37,7 @@ import (
 	_ "verifharness/internal/c18"
 	_ "verifharness/internal/c19"
 	_ "verifharness/internal/c20"
+	_ "verifharness/internal/envops"
 	_ "verifharness/internal/shimcore"
 )
 
